@@ -54,11 +54,26 @@ theorem C08_parseDirective_no_panic (name : AttrName) (value : Node) (isComp : B
       · split <;> rfl
 
 /-- When the nesting bound of type resolution is reached the result is a diagnostic, not a crash
-    (circular aliases and interfaces end here). -/
-theorem C08_depth_bound_is_diagnostic (st : St) (ty obj idx : Node) :
-    resolveElements 0 st ty = ([], st.err tooDeep) ∧ resolveStrings 0 st ty = ([], st.err tooDeep)
-    ∧ resolveIndexed 0 st obj idx = (none, st.err tooDeep) ∧ inferRuntime 0 st ty = ([], st.err tooDeep) := by
-  refine ⟨?_, ?_, ?_, ?_⟩ <;> simp [resolveElements, resolveStrings, resolveIndexed, inferRuntime]
+    (circular aliases and interfaces end here), and the resolution in progress is marked as given up ... -/
+theorem C08_depth_bound_is_diagnostic (st : St) (ty obj idx : Node) (hg : st.typeGaveUp = false) :
+    resolveElements 0 st ty = ([], { st.err tooDeep with typeGaveUp := true }) ∧ resolveStrings 0 st ty = ([], { st.err tooDeep with typeGaveUp := true })
+    ∧ resolveIndexed 0 st obj idx = (none, { st.err tooDeep with typeGaveUp := true }) ∧ inferRuntime 0 st ty = ([], { st.err tooDeep with typeGaveUp := true }) := by
+  refine ⟨?_, ?_, ?_, ?_⟩ <;> simp [resolveElements, resolveStrings, resolveIndexed, inferRuntime, giveUp, hg]
+
+/-- ... so that every NESTED resolution step after that returns at once, without reporting again and without exploring anything:
+    a self-referential union such as `type T = T | T` costs one descent to the bound, not 2^64 of them. -/
+theorem C08_given_up_resolution_unwinds (fuel : Nat) (st : St) (ty obj idx : Node) (hf : fuel + 1 ≠ 64) (hg : st.typeGaveUp = true) :
+    resolveElements (fuel + 1) st ty = ([], st) ∧ resolveStrings (fuel + 1) st ty = ([], st)
+    ∧ resolveIndexed (fuel + 1) st obj idx = (none, st) ∧ inferRuntime (fuel + 1) st ty = ([], st) := by
+  have he : enterRes fuel st = none := by
+    unfold enterRes
+    have : (fuel + 1 == 64) = false := by simpa using hf
+    simp [this, hg]
+  refine ⟨?_, ?_, ?_, ?_⟩ <;> simp [resolveElements, resolveStrings, resolveIndexed, inferRuntime, he]
+
+/-- ... and a resolution that STARTS (nesting depth 0) forgets an earlier give-up: one circular type does not silence the next call. -/
+theorem C08_new_resolution_starts_afresh (st : St) : enterRes 63 st = some { st with typeGaveUp := false } := by
+  simp [enterRes]
 
 -- tests: circular declarations end with the diagnostic (evaluated by the compiler, not a proof)
 #guard (resolveElements FUEL { typeAliases := [(("T", "b2"), .mk .tsTypeRef [] [nIdent "T" "b2", nNone])] }
